@@ -43,7 +43,7 @@ impl Property for C14 {
         "C14"
     }
     fn rule(&self) -> &'static str {
-        "profile `virtual`: 1-4 `declare`s over output-capable signals (all operators, ite, boundary literals), placed at the top, between rows, inside loops and whiles; variables and loop counters named like the outputs they read (Q, R, IO are in the variable pool); header with or without the virtual's column; device answers that change on every call and are Z/X in a quarter of the cases; the caller keeps iterating after error items; every row statement carries a tag. Oracle (self-consistent): per checked row, each declared expression is evaluated by the independent evaluator over the answers the recording driver gave in the call made for that row, with an empty variable environment: the virtual entry is 64 bits wide and shows that value; if the expression reads a Z/X answer of that call the item must be an error item, not a row; the entry's expected value is the literal (number, X, Z) in the virtual's column of that source row, or X if the header has no such column. Non-trivial: >= 1 declare checked in >= 2 checked rows, or a variable named like a read output definitely in scope at a checked row, or a Z/X error item due; distinct by source + signals + driver."
+        "profile `virtual`: 1-4 `declare`s over output-capable signals (all operators, ite, boundary literals), placed at the top, between rows, inside loops and whiles; variables and loop counters named like the outputs they read (Q, R, IO are in the variable pool); header with or without the virtual's column; device answers that change on every call and are Z/X in a quarter of the cases; in a quarter of the cases the answer to one call is malformed (an entry dropped or repeated, two entries swapped); the caller keeps iterating after error items; every row statement carries a tag. Oracle (self-consistent): per checked row, each declared expression is evaluated by the independent evaluator over the answers the recording driver gave in the call made for that row, with an empty variable environment: the virtual entry is 64 bits wide and shows that value; if the expression reads a Z/X answer of that call the item must be an error item, not a row; the entry's expected value is the literal (number, X, Z) in the virtual's column of that source row, or X if the header has no such column. Non-trivial: >= 1 declare checked in >= 2 checked rows, or a variable named like a read output definitely in scope at a checked row, or a Z/X error item due; distinct by source + signals + driver."
     }
     fn cases(&self, tier: Tier) -> u64 {
         match tier {
@@ -52,7 +52,7 @@ impl Property for C14 {
         }
     }
     fn required_classes(&self) -> Vec<&'static str> {
-        vec!["declare", "declares>=2", "virtual-zx-error-seen", "same-named-variable-in-scope", "virtual-without-column", "declare-in-block", "clock-triple", "checked-row-after-virtual-error", "literal-expected-checked"]
+        vec!["declare", "declares>=2", "virtual-zx-error-seen", "same-named-variable-in-scope", "virtual-without-column", "declare-in-block", "clock-triple", "checked-row-after-virtual-error", "checked-row-after-malformed-answer", "literal-expected-checked"]
     }
     fn run(&self, s: &Streams) -> CaseOut {
         let mut out = CaseOut::new();
@@ -72,6 +72,17 @@ impl Property for C14 {
         }
         if dch.chance(1, 4) {
             spec.zx = 16;
+        }
+        // in a quarter of the cases the driver's answer to one call is malformed (an entry
+        // dropped or repeated, two entries swapped): that row is an error item, the caller goes on, and the virtual
+        // signals of later rows are still computed from the outputs alone
+        if dch.chance(1, 4) {
+            let p = dch.upto(8);
+            spec.deviate_at = Some((1 + dch.upto(10), match dch.upto(3) {
+                0 => Deviation::Drop(p),
+                1 => Deviation::Duplicate(p),
+                _ => Deviation::Swap(p, p + 1 + dch.upto(3)),
+            }));
         }
         render_case(&mut out, &text, &built.sigs, Some(&spec));
         let f = feats(&built);
@@ -118,6 +129,7 @@ impl Property for C14 {
         let mut checked_rows = 0usize;
         let mut nontrivial = false;
         let mut seen_virtual_error = false;
+        let mut seen_malformed = false;
         for (i, item) in real.items.iter().enumerate() {
             let before = real.log_len_before[i];
             let after = real.log_len_before.get(i + 1).copied().unwrap_or(real.log.len());
@@ -145,6 +157,11 @@ impl Property for C14 {
                             continue;
                         }
                     }
+                    // the row whose call got the malformed answer
+                    if matches!(&spec.deviate_at, Some((c, _)) if before <= *c && *c < after) {
+                        seen_malformed = true;
+                        continue;
+                    }
                     // some other error (an expression of the program, most likely): what the
                     // program state is afterwards is not this property's business
                     break;
@@ -164,6 +181,7 @@ impl Property for C14 {
                     };
                     checked_rows += 1;
                     out.class_if(seen_virtual_error, "checked-row-after-virtual-error");
+                    out.class_if(seen_malformed, "checked-row-after-malformed-answer");
                     let info = match row.inputs.iter().find(|e| e.0 == "TAG").map(|e| e.1) {
                         Some(InVal::Val(t)) => rows.get(&((t - 1) as usize)),
                         _ => None,
